@@ -608,7 +608,7 @@ class Layout:
         return lines
 
 
-FAULTS = ["parse", "runtime", "undefvar", "stack", "linefile"]
+FAULTS = ["parse", "runtime", "undefvar", "stack", "linefile", "inexpr"]
 
 
 def c14_case(rng):
@@ -640,6 +640,7 @@ def c14_case(rng):
         pre = "%s = 5; " % lay.var()
     head = indent + pre
     fault_lines = []
+    ffile = fpos = None
     expect = []       # (what, line offset within fault_lines, col)
     if kind == "parse":
         stmt = "pe = 1 +;"
@@ -649,6 +650,17 @@ def c14_case(rng):
         stmt = 're = 1 + "a";'
         fault_lines = [head + stmt]
         expect = [("error", 0, len(head) + 7)]
+    elif kind == "inexpr":
+        # an #include in the middle of ONE statement (a list pulled into an array literal); the fault is a token written in the
+        # included file: diagnostics and stack trace must name that file and its line
+        inc = "lst%d.sqf" % rng.randint(0, 9)
+        pad = [rng.choice(["", " ", "\t"]) + str(rng.randint(0, 9)) + "," for _ in range(rng.randint(0, 3))]
+        ind2 = rng.choice(["", "  ", "\t"])
+        lay.files[inc] = pad + [ind2 + '(1 + "a")']
+        lay.features.add("include-inside-a-statement")
+        fault_lines = [head + "fa = [", '#include "/v/%s"' % inc, "];"]
+        expect = [("error", len(pad), len(ind2) + 3)]
+        ffile, fpos = inc, 0
     elif kind == "undefvar":
         stmt = "call { zzundef + 1 };"
         fault_lines = [head + stmt]
@@ -680,6 +692,8 @@ def c14_case(rng):
         col_exact = False
     pos = len(lines)            # 0-based line index of the first fault line
     lines += fault_lines
+    if ffile is not None:       # the culprit is written in another file than the statement it belongs to
+        fname, pos = ffile, fpos
     # trailing layout behind the fault (never executed for error kinds, but it is preprocessed)
     for _ in range(rng.randint(0, 2)):
         lines += lay.code_line()
